@@ -118,31 +118,30 @@ def takesL : LS → List String
   | .loop b => takesL b
   | _ => []
 
-/-- may-held analysis of a lock skeleton: `(edges, held afterwards)`; a deferred unlock keeps the
-    mutex held to the end -/
-def walk (N : Names) (sums : List Sum) (caller : Sum) (depth : Nat) :
-    LS → List String → List (String × String) × List String
+/-- May-held analysis of a lock skeleton: `(edges, what may be held after the skeleton falls
+    through)`.  A deferred unlock keeps the mutex held to the end; after a loop everything its body
+    takes counts as possibly held (a `break` may leave it from the middle); `calls h f`: the edges
+    attributed to the call `f` made while `h` may be held.  Sound within a skeleton:
+    `GV.Race.Order.walkS_sound` (OrderSound.lean). -/
+def walkS (calls : List String → String → List (String × String)) : LS → List String → List (String × String) × List String
   | .lock l, h => (h.map (fun x => (x, l)), l :: h)
   | .unlock l, h => ([], h.erase l)
-  | .call f, h =>
-    (if h.isEmpty then [] else (calleeTakes N sums depth caller f).flatMap (fun l => h.map (fun x => (x, l))), h)
+  | .call f, h => (calls h f, h)
   | .seq a b, h =>
-    let r1 := walk N sums caller depth a h
-    let r2 := walk N sums caller depth b r1.2
+    let r1 := walkS calls a h
+    let r2 := walkS calls b r1.2
     (r1.1 ++ r2.1, r2.2)
   | .ite a b, h =>
-    let r1 := walk N sums caller depth a h
-    let r2 := walk N sums caller depth b h
-    (r1.1 ++ r2.1, r1.2 ++ r2.2.filter (fun x => !r1.2.contains x))
-  | .loop b, h =>
-    -- a second pass from what may be held after one iteration (a fixpoint: the body adds nothing new)
-    let r1 := walk N sums caller depth b h
-    let h1 := h ++ r1.2.filter (fun x => !h.contains x)
-    let r2 := walk N sums caller depth b h1
-    -- a `break` may leave the loop from the middle of the body: whatever the body takes may be held
-    let h2 := h1 ++ r2.2.filter (fun x => !h1.contains x)
-    (r1.1 ++ r2.1, h2 ++ (takesL b).filter (fun x => !h2.contains x))
+    let r1 := walkS calls a h
+    let r2 := walkS calls b h
+    (r1.1 ++ r2.1, r1.2 ++ r2.2)
+  | .loop b, h => ((walkS calls b h).1, h ++ takesL b)
   | _, h => ([], h)
+
+/-- what a call made while `h` may be held contributes: every mutex the callee may take, after each of `h` -/
+def callEdges (N : Names) (sums : List Sum) (caller : Sum) (depth : Nat) (h : List String) (f : String) :
+    List (String × String) :=
+  if h.isEmpty then [] else (calleeTakes N sums depth caller f).flatMap (fun l => h.map (fun x => (x, l)))
 
 def dedup : List (String × String) → List (String × String)
   | [] => []
@@ -155,7 +154,7 @@ def sumOf (N : Names) (sums : List Sum) (unit : String) : Sum :=
 
 /-- the acquisition order exhibited by all units that touch a mutex -/
 def edges (N : Names) (sums : List Sum) (units : List (String × LS)) : List (String × String) :=
-  dedup (units.flatMap (fun u => (walk N sums (sumOf N sums u.1) 3 u.2 []).1))
+  dedup (units.flatMap (fun u => (walkS (callEdges N sums (sumOf N sums u.1) 3) u.2 []).1))
 
 /-- the same mutex is reached as `gp.updateLock`, `builder.buildLock`, …: ranked by field name -/
 def rank (N : Names) (l : String) : Nat :=
